@@ -838,7 +838,10 @@ def load_validate_shape(repo):
             "Config.validate": _skeleton(_method(cfg, "validate"), ("_validate",)),
             "Schema._validate": _skeleton(_method(schema, "_validate"), ("_is_feature_enabled", "_validate_field", "validator", "append")),
             "Schema._validate_field": _skeleton(_method(schema, "_validate_field"), ("__getval__", "validate")),
-            "Field.validate": _skeleton(_method(field, "validate"), ("_validate", "validator"))}
+            "Field.validate": _skeleton(_method(field, "validate"), ("_validate", "validator")),
+            # what switches a section off: every flag of the schema is asked, each answers with the value the configuration holds
+            "Schema._is_feature_enabled": _skeleton(_method(schema, "_is_feature_enabled"), (), full=True),
+            "FeatureFlagField.is_feature_enabled": _skeleton(_method(_class(_parse(repo, "fields/bool_field.py"), "FeatureFlagField"), "is_feature_enabled"), (), full=True)}
 
 
 def load_validate_table(repo):
